@@ -2615,7 +2615,21 @@ fn main() {
                         for ii in im.items.iter_mut() {
                             if let syn::ImplItem::Fn(m) = ii {
                                 let mut done = false;
+                                // the match statement: a top-level statement of the body, or a direct statement of the then-block of a
+                                // top-level `if let PAT = E { .. }` (the usual `if let Some(msg) = message.msg { match msg { .. } }`)
+                                let mut cands: Vec<&mut syn::Stmt> = vec![];
                                 for st in m.block.stmts.iter_mut() {
+                                    let is_match = matches!(st, syn::Stmt::Expr(syn::Expr::Match(_), _));
+                                    if is_match { cands.push(st); continue; }
+                                    if let syn::Stmt::Expr(syn::Expr::If(ifx), _) = st {
+                                        if matches!(&*ifx.cond, syn::Expr::Let(_)) {
+                                            for st2 in ifx.then_branch.stmts.iter_mut() {
+                                                if matches!(st2, syn::Stmt::Expr(syn::Expr::Match(_), _)) { cands.push(st2); }
+                                            }
+                                        }
+                                    }
+                                }
+                                for st in cands.into_iter() {
                                     if let syn::Stmt::Expr(syn::Expr::Match(mt), _) = st {
                                         let names_variant = |pat: &syn::Pat, n: &str| -> bool {
                                             let t = norm_tokens(&pat.to_token_stream());
